@@ -219,6 +219,43 @@ def cool_lookups(prep: Prepared):
                 fn.crud_config.resource_api.endpoint = PLURAL_LOOKUP_NEEDED
 
 
+_DEFAULT_TASK_NAME = re.compile(r"Task-\d+$")
+
+
+def _nested_event(names):
+    """task-name chain below the root -> path-addressed event of the nested model:
+    [label] | [label, i] | {"in": [label, i|None], "ev": …}"""
+    L = names[0]
+    if len(names) == 1:
+        return [L]
+    m = re.fullmatch(re.escape(L) + r"-(\d+)", names[1])
+    if m:
+        i = int(m.group(1))
+        if len(names) == 2:
+            return [L, i]
+        return {"in": [L, i], "ev": _nested_event(names[2:])}
+    return {"in": [L, None], "ev": _nested_event(names[1:])}
+
+
+def nested_events(rec, labels):
+    """the full completion schedule of a pass: every step / forEach-iteration task koreo created at any nesting
+    level, in the order they finished, addressed by the chain of task names from the top-level step down"""
+    out = []
+    for t in rec.finished:
+        chain = []
+        cur = t
+        while cur is not None and cur is not rec.root:
+            chain.append(cur.get_name())
+            cur = rec.parent.get(cur)
+        if cur is not rec.root or not chain:
+            continue
+        chain.reverse()
+        if chain[0] not in labels or any(_DEFAULT_TASK_NAME.match(n) for n in chain):
+            continue
+        out.append(_nested_event(chain))
+    return out
+
+
 def run_prepared(prep: Prepared, order=None, faults=None, objects=None, trigger=None, extra_latency=None,
                  cluster_factory=None, lookup_latency=None):
     """one reconcile pass; returns the observation dict (see module doc).  `order`: list of unit keys.
@@ -291,7 +328,7 @@ def run_prepared(prep: Prepared, order=None, faults=None, objects=None, trigger=
     labels = {s["label"] for s in main_steps(case)}
     obs = {"raised": raised, "elapsed": elapsed, "units": units,
            "log": [[e["method"], e["name"]] for e in cl.log],
-           "events": rec.events(labels), "cluster": cl, "task_tree": tree}
+           "events": rec.events(labels), "nevents": nested_events(rec, labels), "cluster": cl, "task_tree": tree}
     if res is not None:
         conds = [[c.get("type"), c.get("reason"), c.get("status")] for c in res.conditions]
         obs.update({
